@@ -851,6 +851,9 @@ impl TransactionBuilder {
                 )));
             }
             self.collateral_return = Some(return_output);
+        } else {
+            // nothing is left to return: a return output set by an earlier call must not stay next to the new total
+            self.collateral_return = None;
         }
         self.set_total_collateral(total_collateral);
 
